@@ -137,7 +137,8 @@ def ga_worker(job):
 
 
 def climate_worker(job):
-    repo, what, order, chans, past, consts, lons, lats = job
+    repo, what, order, chans, past, consts, lons, lats = job[:8]
+    future = job[8] if len(job) > 8 else past
     it, w = get_interp(repo)
     models = it.get_module(MODELS_MOD)
     geom = it.get_module(GEOM)
@@ -151,13 +152,13 @@ def climate_worker(job):
     for t in order:
         xb[t] = block("x", t, (chans.get(t, 0) * past + consts.get(t, 0),), N, D)
     x = make_multi(it, order, xb, D, flags)
-    out_keys = tuple((t, chans[t] * past) for t in sorted(chans) if chans[t] > 0)
-    cfg = dict(check=what, order=[list(t) for t in order], channels={tname(t): c for t, c in chans.items()}, past_steps=past, constants={tname(t): c for t, c in consts.items()}, lons=lons, lats=lats)
+    out_keys = tuple((t, chans[t] * future) for t in sorted(chans) if chans[t] > 0)
+    cfg = dict(check=what, order=[list(t) for t in order], channels={tname(t): c for t, c in chans.items()}, past_steps=past, future_steps=future, constants={tname(t): c for t, c in consts.items()}, lons=lons, lats=lats)
     problems = []
     sig1d = attempt(lambda: models.Climate1D.get_1d_signature(x.get_signature(), lats))
     inner_out = tuple((t, c) for t, c in (sig1d if not isinstance(sig1d, Rejected) else ()))
-    inner = InnerModel(it, [(tuple(t), c) for t, c in _out1d(chans, past, lats)], 1)
-    wrapper = models.Climate1D(inner, out_keys, past, past, N, consts, flags)
+    inner = InnerModel(it, [(tuple(t), c) for t, c in _out1d(chans, future, lats)], 1)
+    wrapper = models.Climate1D(inner, out_keys, past, future, N, consts, flags)
     if what == "roundtrip":
         res = attempt(lambda: wrapper.from1d(wrapper.to1d(x)))
         if isinstance(res, Rejected):
@@ -323,6 +324,9 @@ def run(ctx):
                             if what == "equator" and not th and (past == 2 or len(comb) == 2 and order != tuple(sorted(comb))):
                                 continue
                             cj.append((ctx.repo, what, order, chans, past, [], lons, lats))
+                        if lons == 3 and (th or order == tuple(sorted(comb))):
+                            # different numbers of past and future steps: to1d uses the former, from1d the latter
+                            cj.append((ctx.repo, "equator", order, chans, past, [], lons, lats, 3 - past))
                         if past == 1:
                             # with constant fields: signature + lonflip only (the round trip is stated without constants)
                             cst = [(order[0], 1)] if order[0][0] == 0 else []
